@@ -283,6 +283,17 @@ class SInt:
         e = z3.simplify(self.e)
         return z3.is_int_value(e) or z3.is_bv_value(e)
 
+    def bit_length(self):
+        """int.bit_length(): case split on k with 2**(k-1) <= |x| < 2**k"""
+        ctx = cur()
+        a = abs(self)
+        if ctx.decide((a == 0).e):
+            return 0
+        for k in range(1, 130):
+            if ctx.decide((a < (1 << k)).e):
+                return k
+        raise OutsideModel("bit_length beyond 129")
+
 
 class SQuot:
     """Exact quotient of two SInt; Python computes it as a float."""
